@@ -15,6 +15,8 @@ The property is judged on the implementation's own outcome, independently of the
   BLOCK/conservation  multiset(initial + pushed) differs from multiset(lists + popped)
   BLOCK/early-null    a null reply without its timer having fired at or after the deadline, or with timeout 0
   BLOCK/lost-wakeup   all producers are done, a consumer still sleeps in its select, a listed key has an element
+  BLOCK/stress        exploration with real goroutines and timers (vh blockstress): a panic, a command that never
+                      returns, pushed != popped + remaining, a null before its timeout
   BLOCK/timing        real-time runs (no replaced timer): null before the timeout, timeout 0 returned,
                       fractional timeouts, BRPOP woken by a push not served from the tail
 """
@@ -336,6 +338,21 @@ def run(tier, seed, replay=None):
                     out.violation({"property": PID, "timing": list(c), "signature": "BLOCK/timing", "what": why,
                                    "readable": ["%s with timeout %s s%s" % (c[1], c[2], "" if c[3] == "-" else ", RPUSH tk a b after %s ms" % c[3])],
                                    "implementation": tobs.get(c[0], {}).get("line", "no output"),
+                                   "replay_cmd": "bin/check C18 --replay <this file>"})
+        # --- exploration with real goroutines and real timers (what the schedule points cannot separate)
+        if not replay or "blockstress" in (json.load(open(replay)) if replay else {}):
+            seeds = [json.load(open(replay))["blockstress"]] if replay else list(range(seed * 10, seed * 10 + (40 if tier == "thorough" else 6)))
+            stats["stress_rounds"] = 0
+            for sd in seeds:
+                rc, o = C.sh([C.VH, "blockstress", "--seed", str(sd), "--rounds", "1500" if tier == "thorough" else "600"], env=C.go_env(), timeout=300)
+                line = next((l for l in o.splitlines() if l.startswith("BSTRESS")), "BSTRESS crashed " + o[-400:].replace("\n", " | "))
+                f = dict(x.split("=", 1) for x in line.split()[2:] if "=" in x)
+                stats["stress_rounds"] += int(f.get("rounds", 0))
+                if line.split()[1] != "ok" and "BLOCK/stress" not in reported:
+                    reported.add("BLOCK/stress")
+                    out.violation({"property": PID, "blockstress": sd, "signature": "BLOCK/stress",
+                                   "what": f.get("what", line).replace("_", " "),
+                                   "readable": ["vh blockstress --seed %d: rounds of 1-3 BLPOP/BRPOP consumers (timeouts 1-5 ms, one or two keys), 1-3 RPUSH producers pushing around the moment the timeouts fire, a plain LPOP; real goroutines, real timers" % sd],
                                    "replay_cmd": "bin/check C18 --replay <this file>"})
         for sig in sorted(confirmed):
             out.known_confirmed.append(known[sig])
